@@ -15,7 +15,8 @@ for P in "$@"; do
   OUT=$(VERIF_REPO=$SCR/repo VERIF_EVIDENCE_DIR=$SCR/evidence VERIF_REPLAY_DIR=$D VERIF_BUDGET_S=${SEEDED_BUDGET_S:-75} VERIF_SHRINK_S=${SEEDED_SHRINK_S:-40} timeout 1500 ./check $P quick 2>&1)
   RC=$?
   SIG=$(echo "$OUT" | grep -m1 '^violation:' | sed 's/^violation: //')
-  echo "$ID $P exit=$RC $SIG"
-  RES=$(echo "$RES" | jq --arg p "$P" --arg rc "$RC" --arg sig "$SIG" '. + {($p): {exit: ($rc|tonumber), signature: $sig}}')
+  ALL=$(echo "$OUT" | grep '^violation:' | sed 's/^violation: //' | cut -d'|' -f1 | sort -u | tr '\n' ' ')
+  echo "$ID $P exit=$RC $SIG [all: $ALL]"
+  RES=$(echo "$RES" | jq --arg p "$P" --arg rc "$RC" --arg sig "$SIG" --arg all "$ALL" '. + {($p): {exit: ($rc|tonumber), signature: $sig, all_subchecks: $all}}')
 done
 echo "$RES" > $D/result.json
